@@ -34,8 +34,8 @@ func NewScheduler(r runner.Runner) *Scheduler {
 
 // Schedule starts execution of the given ExecutionGraph
 func (s *Scheduler) Schedule(g *ExecutionGraph) error {
-	g.start = time.Now()
-	defer func() { g.end = time.Now() }()
+	g.setStart(time.Now())
+	defer func() { g.setEnd(time.Now()) }()
 
 	var wg = sync.WaitGroup{}
 
@@ -70,8 +70,12 @@ func (s *Scheduler) Schedule(g *ExecutionGraph) error {
 				continue
 			}
 
+			// A pipeline included by two stages is scheduled by two loops at the
+			// same time: only the loop that takes the stage out of Waiting runs it
+			if !atomic.CompareAndSwapInt32(&stage.Status, StatusWaiting, StatusRunning) {
+				continue
+			}
 			wg.Add(1)
-			stage.UpdateStatus(StatusRunning)
 			verifAt("sched.stage.launch", stage)
 			go func(stage *Stage) {
 				defer func() {
@@ -83,11 +87,16 @@ func (s *Scheduler) Schedule(g *ExecutionGraph) error {
 
 				err := s.runStage(stage)
 				if err != nil {
+					// record the error before the status is published: another
+					// run of this graph (a pipeline included twice) returns as
+					// soon as it sees every stage settled
+					if !stage.AllowFailure {
+						g.setError(err)
+					}
 					stage.UpdateStatus(StatusError)
 					verifAt("sched.stage.errored", stage)
 
 					if !stage.AllowFailure {
-						g.setError(err)
 						return
 					}
 				}
